@@ -566,6 +566,12 @@ func hMsg(hashFunction HashFunction, out, in, key []uint8, n uint32) error {
 	if uint32(len(key)) != 3*n {
 		return errors.New(fmt.Sprintf("H_msg takes 3n-bit keys, we got n=%d but a keylength of %d.\n", n, len(key)))
 	}
+	if uint64(len(in))+uint64(len(key))+uint64(n) > 0xFFFFFFFF {
+		// coreHash takes 32-bit lengths: it would hash only len(in) mod 2^32 bytes of
+		// such a message, or index past a buffer whose length has wrapped around.
+		coreHashLong(hashFunction, out, 2, key, in, n)
+		return nil
+	}
 	coreHash(hashFunction, out, 2, key, uint32(len(key)), in, uint32(len(in)), n)
 	return nil
 }
